@@ -2,3 +2,6 @@ import HecsModel.Model.Basic
 import HecsModel.Model.Proto
 import HecsModel.Model.World
 import HecsModel.Model.WorldJudge
+import HecsModel.Spec.World
+import HecsModel.Lemmas.WorldInv
+import HecsModel.Props.C01
